@@ -210,6 +210,9 @@ def handle (args : List String) (impl : String) : Verdict :=
       -- fu: 0 = first reconciliation, 1 = namespace b was converted before with the same settings,
       -- 2 = a previous reconciliation ran with every key = allow, then the ConfigMap changed
       -- (an unchanged ConfigMap does not ask for a second conversion: the first one stands)
+      -- fu = 3: like 2, the ConfigMap is emptied instead (every key absent = deny; the harness only uses it
+      -- with an all-deny setting, so `cm` already is what an empty ConfigMap means)
+      let fu := if fu == "3" then "2" else fu
       let noResync := fu == "2" && cm == allAllow
       let prev := if fu == "0" then initialBits
                   else if fu == "2" then buildGlobalDynamic static allAllow else cur
